@@ -79,13 +79,13 @@ Qed.
 Lemma serve_file_cases c f p :
   serve_file c f p = OStatus 51 m_notfound \/ serve_file c f p = OStatus 50 m_toolarge \/
   serve_file c f p = OStatus 40 m_enc \/
-  exists content t, lstat f p = Some (File content) /\ decode content = Some t /\
+  exists content t, lstat f p = Some (File content) /\ read_text content = Some t /\
                     (s_max c <? N.of_nat (length content))%N = false /\
                     serve_file c f p = OServe p (mime_of p) t.
 Proof.
   unfold serve_file. destruct (lstat f p) as [[content| |tg]|] eqn:E; auto.
   destruct (s_max c <? N.of_nat (length content))%N eqn:E2; auto.
-  destruct (decode content) as [t|] eqn:E3; auto.
+  destruct (read_text content) as [t|] eqn:E3; auto.
   right; right; right. exists content, t. auto.
 Qed.
 
@@ -149,7 +149,7 @@ Qed.
 
 Lemma serve_file_OServe c f p q mime t :
   serve_file c f p = OServe q mime t ->
-  q = p /\ exists content, lstat f q = Some (File content) /\ decode content = Some t.
+  q = p /\ exists content, lstat f q = Some (File content) /\ read_text content = Some t.
 Proof.
   destruct (serve_file_cases c f p) as [H|[H|[H|[content [t' [H1 [H2 [_ H3]]]]]]]];
     [rewrite H; discriminate..|].
@@ -159,7 +159,7 @@ Qed.
 Lemma containment : forall c f url q mime t,
   handle c f url = OServe q mime t ->
   path_prefixb (s_root c) q = true /\ realpath f [] q = RPath q /\
-  exists content, lstat f q = Some (File content) /\ decode content = Some t.
+  exists content, lstat f q = Some (File content) /\ read_text content = Some t.
 Proof.
   intros c f url q mime t H.
   pose proof (handle_shape_ok c f url) as S. rewrite H in S. clear H.
@@ -781,7 +781,7 @@ Lemma reachable_literal_partial : forall c f segs content t,
   lstat f (s_root c ++ segs) = Some (File content) -> segs <> [] ->
   (forall n, In n segs -> n <> [] /\ n <> dot /\ n <> dotdot /\ mem ch_slash n = false /\ mem ch_pct n = false /\ mem 0%N n = false) ->
   (length (s_root c ++ segs) < 1000)%nat ->
-  (N.of_nat (length content) <= s_max c)%N -> decode content = Some t ->
+  (N.of_nat (length content) <= s_max c)%N -> read_text content = Some t ->
   (* extra (a) *) (forall n, In n (s_root c) -> n <> [] /\ n <> dot /\ n <> dotdot) ->
   (* extra (b) *) name_too_long (s_root c ++ segs) = false ->
   handle c f (ch_slash :: CertAuth.join_slash segs) = OServe (s_root c ++ segs) (mime_of (s_root c ++ segs)) t.
@@ -819,7 +819,7 @@ Lemma reachable_literal_refuted :
   lstat f (s_root c ++ segs) = Some (File content) -> segs <> [] ->
   (forall n, In n segs -> n <> [] /\ n <> dot /\ n <> dotdot /\ mem ch_slash n = false /\ mem ch_pct n = false /\ mem 0%N n = false) ->
   (length (s_root c ++ segs) < 1000)%nat ->
-  (N.of_nat (length content) <= s_max c)%N -> decode content = Some t ->
+  (N.of_nat (length content) <= s_max c)%N -> read_text content = Some t ->
   handle c f (ch_slash :: CertAuth.join_slash segs) = OServe (s_root c ++ segs) (mime_of (s_root c ++ segs)) t).
 Proof.
   intro H.
